@@ -42,6 +42,8 @@ var verifBadExprs = []struct {
 	offset int // offset of the offending token inside the text
 }{
 	{" ]] ", 1}, {" a b ", 3}, {"a..b", 2}, {"(a", 2}, {"a &  b", 3}, {" 0x ", 3}, {"unknown_ctx.x ", 0}, {" foo() ", 1}, {"github.nope ", 0}, {" 1 == github.nope", 6},
+	{"hashFiles('a', null) ", 15}, {"hashFiles('a', 'b', null)", 20}, {"startsWith('a', null)", 16}, {"format('{0}', 1, 2) ", 0},
+	{"github.sha.foo ", 0}, {"!github.nope", 1}, {"(github.nope)", 1}, {"'a' < github", 0},
 }
 
 // HarnessC07Template: a template string pre + ${{ good }} + mid + ${{ bad }}
